@@ -137,8 +137,9 @@ func (k c12case) text(proj string) string {
 		}
 		return " -> (" + strings.Join(xs, ", ") + ")"
 	}
-	fmt.Fprintf(&b, "task build(\"a.txt\")%s {\n    true\n}\n\n", outs(o1))
-	fmt.Fprintf(&b, "task other()%s {\n    true\n}\n\n", outs(o2))
+	// glob *dependencies* are inputs, never outputs: what they match must survive --clean
+	fmt.Fprintf(&b, "task build(\"a.txt\", \"src/**/*.c\", \"keep/*\")%s {\n    true\n}\n\n", outs(o1))
+	fmt.Fprintf(&b, "task other(\"*.md\", \"lib/*\")%s {\n    true\n}\n\n", outs(o2))
 	if k.CleanTask {
 		b.WriteString("task clean() {\n    printf cleaned > cleaned.marker\n}\n")
 	}
